@@ -1781,7 +1781,10 @@ class Client:
             info = MQTTMessageInfo(local_mid)
             rc = self._send_publish(
                 local_mid, topic_bytes, local_payload, qos, retain, False, info, properties)
-            info.rc = rc
+            if rc != MQTTErrorCode.MQTT_ERR_SUCCESS:
+                # on success leave rc alone: a concurrent reconnect() may already have marked
+                # this packet as lost
+                info.rc = rc
             return info
         else:
             message = MQTTMessage(local_mid, topic_bytes)
